@@ -7,7 +7,7 @@
    The guards loess_rejects / spline_*_rejects / pf_* and the kernel skeleton list come from
    gen/GenKernels.v, regenerated from /repo on every run. *)
 From Coq Require Import ZArith List Bool String.
-From PB Require Import lib.PySlice C05.PyLen C05.Mon C05.Model C05.Callers C05.Sigs gen.GenKernels C05.Final C05.CallerProofs.
+From PB Require Import lib.PySlice C05.PyLen C05.Mon C05.Model C05.Callers C05.Sigs gen.GenKernels C05.Final C05.CallerProofs C05.State C05.StateFinal.
 Import ListNotations.
 Open Scope Z_scope.
 
@@ -214,6 +214,52 @@ Theorem C05_averaged_interp_safe : forall (mask : list bool) (o : list bool),
   all_okb (logof (averaged_interp mask o)) = true.
 Proof. exact averaged_interp_final. Qed.
 Print Assumptions C05_averaged_interp_safe.
+
+
+(* ---- histories of public calls on ONE fitter object (the state the Python-level guards read) ---- *)
+(* the exception paths of the method wrapper, extracted from the CURRENT source: a handler that resets x or _size
+   must reset both and every cache built from x (attributes assigned by the _setup_* methods) *)
+Theorem C05_wrapper_handlers_ok : handlers_ok fitter_cache_attrs wrapper_handlers = true.
+Proof. exact wrapper_handlers_ok_final. Qed.
+Print Assumptions C05_wrapper_handlers_ok.
+
+(* nothing else in the class writes x, _size or the caches *)
+Theorem C05_fitter_other_writers : fitter_other_writers = [].
+Proof. exact other_writers_final. Qed.
+Print Assumptions C05_fitter_other_writers.
+
+(* for EVERY history of calls (any data lengths, any order of cache use / kernel call / raise inside each method,
+   objects created with or without x_data): after every call -- returned or raised -- _size = len(x) and the cached
+   spline basis / Vandermonde were built from the current x; every kernel call sees len(basis.x) = len(y) = len(weights) *)
+Theorem C05_history_state : forall (calls : list (Z * list act)) (x0 : option Z),
+  Forall (fun s => ssize s = sx s /\
+                   (forall nk d bx, sbasis s = Some (nk, d, bx) -> sx s = Some bx) /\
+                   (forall px, spoly s = Some px -> sx s = Some px))
+         (fst (run_history wrapper_handlers calls (init_state x0))) /\
+  Forall (fun ob : obs => let '(nk, d, bx, yl, wl) := ob in bx = yl /\ bx = wl)
+         (snd (run_history wrapper_handlers calls (init_state x0))).
+Proof. exact history_state_final. Qed.
+Print Assumptions C05_history_state.
+
+(* hence every _numba_btb_bty call of every history is index-safe *)
+Theorem C05_history_kernel_safe : forall (calls : list (Z * list act)) (x0 : option Z) (o : list bool),
+  Forall (fun ob : obs =>
+            let '(nk, d, bx, yl, wl) := ob in
+            spline_knots_rejects nk = false -> spline_basis_rejects d = false -> 0 <= bx ->
+            all_okb (logof (btb_bty bx (spline_nk nk d) d yl wl (d + 1) (spline_num_bases nk d)
+                                    (spline_num_bases nk d) (bx * (d + 1)) o)) = true)
+         (snd (run_history wrapper_handlers calls (init_state x0))).
+Proof. exact history_kernel_final. Qed.
+Print Assumptions C05_history_kernel_safe.
+
+(* the checker is not vacuous: a wrapper that resets only x and _size is rejected, and the model then shows the
+   stale basis (400 points, failing call after the basis was cached, then 60 points) *)
+Example C05_stale_basis_example :
+  handlers_ok ["_polynomial"; "_spline_basis"]%string [["x"; "_size"]%string] = false /\
+  snd (run_history [["x"; "_size"]%string]
+         [(400, [ASpline 10 3; ARaise]); (60, [ASpline 10 3; AKernel])] (init_state None))
+  = [(10, 3, 400, 60, 60)].
+Proof. exact stale_basis_example_final. Qed.
 
 Example C05_loess_guard_nonvacuous : loess_rejects 4 1 4 = false /\ 0 <= 1.
 Proof. exact loess_guard_nonvacuous. Qed.
